@@ -238,6 +238,7 @@ class Run:
             quirks['rv'] = cl['rv0']      # where the cluster's resource versions start (a history may cross a power of ten)
         self.sim = Sim(resources=resources, seed=scenario.get('seed', 0), namespaces=tuple(cl.get('namespaces') or ('default',)), **quirks)
         self.cluster = self.sim.cluster
+        self.cluster.chunking = cl.get('chunking')
         wl = cl.get('watch_latency')
         if wl:
             self._wl = list(wl) if isinstance(wl, (list, tuple)) else [wl]
